@@ -65,9 +65,15 @@ def read : Prog FS := .get .ret
 def sys (c : Call) : Prog Res := .call c .ret
 def say (o : Out) : Prog Unit := .emit o (.ret ())
 
-/-- fault oracle: may answer the `n`-th issued call with an errno instead of executing it -/
-abbrev Oracle := Nat → Call → Option Errno
-def noFaults : Oracle := fun _ _ => none
+def _root_.TrashVerif.Call.kind : Call → String
+  | .mkdir .. => "mkdir" | .createExcl .. => "createExcl" | .createTrunc .. => "createTrunc"
+  | .write .. => "write" | .close .. => "close" | .rename .. => "rename" | .unlink .. => "unlink"
+  | .rmdir .. => "rmdir" | .symlink .. => "symlink" | .chmod .. => "chmod" | .utime .. => "utime"
+
+/-- fault oracle: may answer a call with an errno instead of executing it; it sees the global
+    index of the call, the number of earlier calls of the same kind, and the call itself -/
+abbrev Oracle := Nat → Nat → Call → Option Errno
+def noFaults : Oracle := fun _ _ _ => none
 
 structure RunState where
   fs : FS
@@ -76,13 +82,15 @@ structure RunState where
   outs : List Out := []       -- newest first
   n : Nat := 0
 
+def kindCount (tr : List (Call × Res)) (k : String) : Nat := (tr.filter fun (c, _) => c.kind = k).length
+
 /-- sequential execution under a fault oracle, recording every intermediate state -/
 def run {α} (φ : Oracle) : Prog α → RunState → α × RunState
   | .ret a, s => (a, s)
   | .get k, s => run φ (k s.fs) s
   | .emit o k, s => run φ k { s with outs := o :: s.outs }
   | .call c k, s =>
-    let r : Except Errno FS := match φ s.n c with
+    let r : Except Errno FS := match φ s.n (kindCount s.trace c.kind) c with
       | some e => .error e
       | none => c.apply s.fs
     match r with
